@@ -685,3 +685,85 @@ func TestWitness_C16_QueryRelationOnForeignComponent(t *testing.T) {
 		}
 	}
 }
+
+// C15 / C07: Shrink while a query is open. Shrink frees empty relation tables, which swap-removes them
+// from the archetype's table list - the very slice an open query is walking - and reallocates the
+// columns the query's cursor points into. Before the repair the call went through on a locked world
+// and the open query then skipped an entity (or wrote through pointers into dropped arrays). Shrink
+// changes storage structure, so like every other structure-changing operation it now panics, without
+// effect, on a locked world; the query then visits exactly what it would have visited.
+func TestWitness_C15_ShrinkInsideQuery(t *testing.T) {
+	build := func() (*ecs.World, *ecs.Map1[rel1], []ecs.Entity) {
+		w := ecs.NewWorld(16, 1)
+		mapR := ecs.NewMap1[rel1](w)
+		var tg, kids []ecs.Entity
+		for i := 0; i < 5; i++ {
+			tg = append(tg, w.NewEntity())
+		}
+		for i := 0; i < 5; i++ {
+			kids = append(kids, mapR.NewEntity(&rel1{V: int64(i)}, ecs.RelIdx(0, tg[i])))
+		}
+		// empty the tables of targets 1 and 3 while the targets stay alive: work for Shrink
+		w.RemoveEntity(kids[1])
+		w.RemoveEntity(kids[3])
+		return w, mapR, kids
+	}
+	walk := func(shrinkAt int) (visited []ecs.Entity, shrinkPanicked bool) {
+		w, _, _ := build()
+		q := ecs.NewFilter1[rel1](w).Query()
+		for i := 0; ; i++ {
+			if i == shrinkAt {
+				func() {
+					defer func() { shrinkPanicked = recover() != nil }()
+					w.Shrink()
+				}()
+			}
+			if !q.Next() {
+				break
+			}
+			visited = append(visited, q.Entity())
+		}
+		if w.IsLocked() {
+			t.Fatalf("world locked after the walk (Shrink at %d)", shrinkAt)
+		}
+		return
+	}
+	base, _ := walk(-1)
+	if len(base) != 3 {
+		t.Fatalf("baseline walk visits %d entities, want 3", len(base))
+	}
+	notRejected := false
+	for at := 0; at <= 3; at++ {
+		got, panicked := walk(at)
+		seen := map[ecs.Entity]int{}
+		for _, e := range got {
+			seen[e]++
+		}
+		for _, e := range base {
+			if seen[e] != 1 {
+				t.Fatalf("Shrink before Next #%d (panicked=%v): the open query visits %v %d times; baseline %v, got %v", at, panicked, e, seen[e], base, got)
+			}
+		}
+		if len(got) != len(base) {
+			t.Fatalf("Shrink before Next #%d: the open query visits %v, baseline %v", at, got, base)
+		}
+		notRejected = notRejected || !panicked
+	}
+	if notRejected {
+		t.Fatal("Shrink on a world locked by an open query did not panic")
+	}
+	// outside a query Shrink works as before and the freed tables are reused
+	w, mapR, kids := build()
+	mustNotPanic(t, "Shrink on an unlocked world", func() {
+		for w.Shrink(0) {
+		}
+	})
+	q := ecs.NewFilter1[rel1](w).Query()
+	if q.Count() != 3 {
+		t.Fatalf("Count after Shrink = %d, want 3", q.Count())
+	}
+	q.Close()
+	if mapR.Get(kids[4]).V != 4 {
+		t.Fatal("value changed by Shrink")
+	}
+}
